@@ -273,7 +273,7 @@ func genPlScenario(r Rng, which string) plScenario {
 	if r.Chance(0.25) {
 		sc.BeforeStart = 1 + r.IntN(sc.IngestCap)
 	}
-	if which == "C08" && r.Chance(0.5) || r.Chance(0.15) {
+	if which == "C08" && r.Chance(0.5) || which == "C05" && r.Chance(0.3) || r.Chance(0.15) {
 		sc.Stop = "deadline"
 		sc.Store = "stall"
 		sc.Abandoned = r.Chance(0.5)
@@ -383,6 +383,15 @@ func checkRun(c *ctx, run *plRun, which string) {
 			_ = fb // Flush returns its own answer; nothing is left pending by construction
 		}
 	}
+	// ---- C05, "or the caller keeps receiving": after a Stop that ran into its deadline, every accepted batch
+	// whose receiver is live still gets its one answer once the pipeline has wound down
+	if which == "C05" && run.stopErr != nil {
+		for _, b := range run.batches {
+			if b.ret == nil && !b.abandon && len(b.values()) == 0 {
+				c.r.Add(Finding{Kind: "violation", Check: "silent-waiter-after-deadline", Detail: fmt.Sprintf("Stop returned %v; accepted batch %d (%s) whose caller keeps receiving was never answered", run.stopErr, b.id, b.kind), Replay: run.replay()})
+			}
+		}
+	}
 	// ---- C07: order. The observations were made exactly, at the moment each nil answer was received /
 	// Flush returned (see ackObserver): no wall-clock comparison of goroutines is involved.
 	if which == "C07" {
@@ -480,6 +489,16 @@ func runPipeline(c *ctx, which string) {
 	if which == "C05" || which == "C08" {
 		for i := 0; i < 3; i++ {
 			ingestRacesStop(c, i)
+		}
+	}
+	if which == "C07" {
+		for i := 0; i < 12*c.scale; i++ {
+			ackImpliesVisible(c, r, i)
+		}
+	}
+	if which == "C09" {
+		for i := 0; i < 2*c.scale; i++ {
+			trickleAgainstStalledStore(c, r, i)
 		}
 	}
 	n := 60 * c.scale
@@ -733,4 +752,162 @@ func ingestRacesStop(c *ctx, i int) {
 			Replay: map[string]any{"scenario": "ingest-races-stop", "window_bound_ms": w.bound.Milliseconds(), "ingest_err": fmt.Sprint(ingestErr), "stop_err": fmt.Sprint(stopErr)}})
 	}
 	_ = ack
+}
+
+// ackImpliesVisible (C07, second clause): batches spread over partitions with small row-group limits, so that
+// partition-level triggers fire while other partitions still hold rows. Whenever a nil answer is observed,
+// a query issued right then must already return every row of every batch answered nil so far, exactly once.
+func ackImpliesVisible(c *ctx, r Rng, i int) {
+	cfg := bs.DefaultBloomSearchEngineConfig()
+	cfg.PartitionFunc = partitionFunc("p")
+	cfg.MaxBufferedTime = time.Hour
+	cfg.MaxRowGroupRows = 1 + r.IntN(3)
+	cfg.MaxBufferedRows = pick(r, []int{3, 6, 1000})
+	if r.Chance(0.3) {
+		cfg.MaxRowGroupBytes = 60 + r.IntN(200)
+	}
+	env := NewEnv(cfg)
+	defer env.Stop()
+	type bt struct {
+		ids  []int
+		done chan error
+		nil_ bool
+	}
+	var batches []*bt
+	id := 0
+	var desc []string
+	check := func(when string) {
+		want := map[int]int{}
+		for _, b := range batches {
+			if b.nil_ {
+				for _, x := range b.ids {
+					want[x] = 1
+				}
+			}
+		}
+		out := env.Query(&bs.Query{})
+		got := idsOf(out.Rows)
+		for x := range want {
+			if got[x] != 1 {
+				c.r.Add(Finding{Kind: "violation", Check: "nil-ack-not-yet-visible", Detail: fmt.Sprintf("%s: row %d belongs to a batch already answered nil but a query issued right then returns it %d times (err %v)", when, x, got[x], out.Err),
+					Replay: map[string]any{"history": desc, "MaxRowGroupRows": cfg.MaxRowGroupRows, "MaxBufferedRows": cfg.MaxBufferedRows, "MaxRowGroupBytes": cfg.MaxRowGroupBytes}})
+				return
+			}
+		}
+	}
+	collect := func(when string) {
+		progress := true
+		for progress {
+			progress = false
+			for _, b := range batches {
+				if b.nil_ {
+					continue
+				}
+				select {
+				case e := <-b.done:
+					if e == nil {
+						b.nil_ = true
+						progress = true
+					}
+				default:
+				}
+			}
+		}
+		check(when)
+	}
+	for k := 0; k < 3+r.IntN(6); k++ {
+		b := &bt{done: make(chan error, 1)}
+		var rows []map[string]any
+		var parts []string
+		for j := 0; j < 1+r.IntN(3); j++ {
+			id++
+			p := pick(r, []string{"a", "b", "c"})
+			parts = append(parts, p)
+			b.ids = append(b.ids, id)
+			rows = append(rows, map[string]any{"_id": id, "p": p})
+		}
+		desc = append(desc, fmt.Sprintf("batch%v parts%v", b.ids, parts))
+		env.Eng.IngestRows(context.Background(), rows, b.done)
+		batches = append(batches, b)
+		time.Sleep(3 * time.Millisecond) // let a limit-triggered flush complete
+		collect(fmt.Sprintf("after batch %d", k+1))
+	}
+	env.Eng.Flush(context.Background())
+	desc = append(desc, "Flush")
+	collect("after Flush returned")
+	for _, b := range batches {
+		if !b.nil_ {
+			c.r.Add(Finding{Kind: "violation", Check: "flush-barrier", Detail: fmt.Sprintf("Flush returned but batch %v was not answered nil", b.ids), Replay: map[string]any{"history": desc}})
+		}
+	}
+	c.r.Case(true, fmt.Sprint("ack-implies-visible", i, desc))
+	c.r.Hit("pipeline.ack-implies-visible")
+}
+
+// trickleAgainstStalledStore (C09): the store stalls in CreateFile. Variant "time": a slow producer (one small
+// batch per 130 ms, slower than the 100 ms ticker) with a short MaxBufferedTime, so that only the time trigger
+// ever asks for a flush. Variant "empty": one small batch stays buffered below every limit and a flood of
+// empty batches follows. Either way the number of accepted, unanswered batches must stay within the bound.
+func trickleAgainstStalledStore(c *ctx, r Rng, i int) {
+	variant := []string{"time", "empty"}[i%2]
+	cfg := bs.DefaultBloomSearchEngineConfig()
+	cfg.IngestBufferSize = 1 + r.IntN(2)
+	cfg.MaxBufferedRows = 3
+	cfg.MaxBufferedTime = 30 * time.Millisecond
+	if variant == "empty" {
+		cfg.MaxBufferedTime = time.Hour
+	}
+	store := NewMemStore()
+	g := newGate(func(op, file string) bool { return op == "create" })
+	store.Gate = g.hook
+	eng, err := bs.NewBloomSearchEngine(cfg, &FaultMeta{MetaStore: bs.NewMemoryMetaStore(), s: store}, store)
+	if err != nil {
+		fatal("engine: %v", err)
+	}
+	eng.Start()
+	accepted := 0
+	var dones []chan error
+	send := func(rows []map[string]any, wait time.Duration) {
+		done := make(chan error, 1)
+		ctx, cancel := context.WithTimeout(context.Background(), wait)
+		if eng.IngestRows(ctx, rows, done) == nil {
+			accepted++
+			dones = append(dones, done)
+		}
+		cancel()
+	}
+	n := 0
+	if variant == "time" {
+		n = 18
+		for k := 0; k < n; k++ {
+			send([]map[string]any{{"_id": k}}, 40*time.Millisecond)
+			time.Sleep(130 * time.Millisecond)
+		}
+	} else {
+		n = 81
+		send([]map[string]any{{"_id": 0}}, 40*time.Millisecond)
+		for k := 0; k < 80; k++ {
+			send(nil, 10*time.Millisecond)
+		}
+		time.Sleep(20 * time.Millisecond)
+	}
+	answered := 0
+	for _, d := range dones {
+		select {
+		case <-d:
+			answered++
+		default:
+		}
+	}
+	bound := cfg.IngestBufferSize + 4*cfg.MaxBufferedRows
+	c.r.Case(true, fmt.Sprint("trickle-stalled", i, variant))
+	c.r.Hit("pipeline.trickle-stalled." + variant)
+	if accepted-answered > bound {
+		c.r.Add(Finding{Kind: "violation", Check: "backlog-bound", Detail: fmt.Sprintf("variant %q with the store stalled: %d of %d batches were accepted and %d are unanswered; bound IngestBufferSize + 4*MaxBufferedRows = %d", variant, accepted, n, accepted-answered, bound),
+			Replay: map[string]any{"variant": variant, "IngestBufferSize": cfg.IngestBufferSize, "MaxBufferedRows": cfg.MaxBufferedRows, "MaxBufferedTime": cfg.MaxBufferedTime.String()}})
+	}
+	g.release()
+	ctx, cancel := context.WithTimeout(context.Background(), 10*time.Second)
+	eng.Stop(ctx)
+	cancel()
 }
